@@ -4,7 +4,7 @@
 # touched packages' existing tests pass with the change. Then copies the deliverables to
 # /verif/seeded/<ID>/. Does not remove the worktree.
 set -u
-id=$1; wt=/tmp/seed-$id
+id=$1; wt=${2:-/tmp/seed-$id}; dest=${3:-$id}
 export GOFLAGS=-mod=mod GOPROXY=off GOSUMDB=off GOTOOLCHAIN=local; go() { go1.26.8 "$@"; }
 cd $wt || exit 2
 echo "== untracked/modified:"; git status --short | grep -v _seed_out | grep -v _TASK
@@ -22,5 +22,5 @@ git apply /tmp/seed-$id.p
 mkdir -p /tmp/seed-$id-demos; for d in $demos; do mv $d /tmp/seed-$id-demos/$(echo $d | tr / _); done
 for p in $changed; do echo "-- WITH change: existing tests of $p"; go test -count=1 ./$p/ 2>&1 | tail -2; done
 i=0; for d in $demos; do mv /tmp/seed-$id-demos/$(echo $d | tr / _) $d; done
-mkdir -p /verif/seeded/$id && cp -r $wt/_seed_out/* /verif/seeded/$id/
-echo "== copied to /verif/seeded/$id"; ls /verif/seeded/$id
+mkdir -p /verif/seeded/$dest && cp -r $wt/_seed_out/* /verif/seeded/$dest/ && git -C $wt rev-parse HEAD > /verif/seeded/$dest/BASE_COMMIT
+echo "== copied to /verif/seeded/$dest"; ls /verif/seeded/$dest
